@@ -18,25 +18,32 @@
              Also evaluated on every CWs case (code 7): idempotence and the pre-line
              specification -- both are theorems of Properties/C02.v, so this can only fail
              if the check and the theorems drifted apart
-     CDraw   one page: the text boxes laid out on it (visible?, text) and the
-             DrawText calls the recording backend received for it: one call per
-             visible non-blank text box, same text (up to trailing spaces)
+     CDraw   one page: its box tree (every box with the visibility the SOURCE gives it: the
+             value set by the nearest element that sets `visibility`; text boxes with their
+             text) and the DrawText calls the recording backend received for it: one call
+             per non-blank text box whose computed visibility is visible -- whatever the
+             visibility of the boxes around it -- same text (up to trailing spaces)
+     CEq     tree.ResumeStack.Equals on two resume stacks (entries by increasing key): the
+             result must be structural equality (the guard of the page cache in remakePage)
 
    codes: 0 agree; 1 CWs differs from the model; 3 a character lost / duplicated /
    reordered / invented in a paragraph; 4 paragraphs out of order or split;
    5 units not conserved; 8 a collapsible space vanished inside a line (everything else
    matches); 9 a preserved line feed / <br> did not break the line (everything else matches); 6 text boxes and DrawText calls do not match;
-   7 idempotence / the pre-line specification fail on a generated text (they are theorems). *)
-From Verif Require Export Css.Whitespace Css.WhitespaceSpec Layout.TextDraw.
+   7 idempotence / the pre-line specification fail on a generated text (they are theorems);
+   10 ResumeStack.Equals is not equality of the two stacks. *)
+From Verif Require Export Css.Whitespace Css.WhitespaceSpec Layout.TextDraw Layout.Fragment.
 From Coq Require Import List NArith Bool Arith.
 Import ListNotations.
+Local Open Scope nat_scope.
 
 Inductive case :=
 | CWs (following : bool) (src : inl) (out : list (list N)) (following' : bool)
 | CPara (src : inl) (lines : list (list N))
 | COrder (n : N) (ids : list N)
 | CUnits (n : N) (ids : list N)
-| CDraw (boxes : list (bool * list N)) (draws : list (list N)).
+| CDraw (page : vbox) (draws : list (list N))
+| CEq (r o : mstack) (res : bool).
 
 Fixpoint runes_eqb (a b : list N) : bool :=
   match a, b with
@@ -189,8 +196,8 @@ Fixpoint is_perm (a b : list (list N)) : bool :=
 (* the model of drawText / drawFirstLine (Layout/TextDraw.v): one DrawText per
    visible text box whose text is not only white space; compared up to trailing
    spaces (the text layout keeps a trailing collapsible space the box text lost) *)
-Definition expected_draws (boxes : list (bool * list N)) : list (list N) :=
-  map rstrip (draw_events (PBox (map (fun b => PText (fst b) true (snd b)) boxes))).
+Definition expected_draws (page : vbox) : list (list N) :=
+  map rstrip (draw_events (resolve_visibility true page)).
 
 Definition check (c : case) : N :=
   match c with
@@ -212,7 +219,13 @@ Definition check (c : case) : N :=
                                      | [], [] => true
                                      | x :: r, y :: s => (x =? y) && eq r s
                                      | _, _ => false end) (map N.to_nat ids) (seq 0 (N.to_nat n)) then 0%N else 5%N
-  | CDraw boxes draws => if is_perm (expected_draws boxes) (map rstrip draws) then 0%N else 6%N
+  | CDraw page draws => if is_perm (expected_draws page) (map rstrip draws) then 0%N else 6%N
+  | CEq r o res =>
+      (* both arguments arrive in canonical form (entries by increasing key): there Equals is
+         structural equality (C02_resume_stack_equals_iff_eq); the port and the decision of
+         equality are both evaluated *)
+      if negb (ms_canonical r && ms_canonical o) then 2%N
+      else if Bool.eqb (ms_equals r o) res && Bool.eqb (ms_eqb r o) res then 0%N else 10%N
   end.
 
 Definition model_out (c : case) : list (list N) :=
@@ -220,7 +233,8 @@ Definition model_out (c : case) : list (list N) :=
   | CWs f src _ _ => let '(b, g) := pw f src in map snd (texts b) ++ [[if g then 1 else 0]]%N
   | CPara src _ => [map fst (expected src)]
   | COrder n _ | CUnits n _ => [[n]]
-  | CDraw boxes _ => expected_draws boxes
+  | CDraw page _ => expected_draws page
+  | CEq r o _ => [[if ms_equals r o then 1 else 0; if ms_eqb r o then 1 else 0]]%N
   end.
 
 Fixpoint mismatches (i : N) (cs : list case) : list (N * N) :=
